@@ -31,6 +31,8 @@ OPS = {
     "midi_load": ["midi_file.py", "midi_message.py", "midi_track.py", "sequences_load"],
     "midi_roundtrip": ["midi_file.py", "midi_message.py", "midi_track.py", "sequences_save", "sequences_load", "to_midi_track"],
     "music_theory": ["music_theory.py"],
+    "getters": ["is_empty", "is_channel_consistent", "get_sequence_channel", "get_sequence_duration", "get_key_signature_guess", "get_message_times_of_type"],
+    "digitise": ["digitise_velocity", "velocity_from_bin", "bin_velocity", "get_velocity_bins"],
     "composition": ["composition.py", "track.py", "bar.py", "sequences_split_bars", "Sequence.transpose", "Sequence.copy"],
 }
 
